@@ -1101,6 +1101,7 @@ func ruleC05R6(w *World, r *Report) {
 	n := 0
 	var fromParam func(v ssa.Value, depth int) (bool, string)
 	fromParam = func(v ssa.Value, depth int) (bool, string) {
+		v = stripConv(v) // string(b) of a []byte parameter keeps every offset
 		p, ok := v.(*ssa.Parameter)
 		if !ok {
 			return false, fmt.Sprintf("%s is computed (%s), not a parameter", v.Name(), v.String())
